@@ -239,9 +239,12 @@ pub fn model(c: &Case) -> Expect {
     }
     // invalid option values
     let opt_invalid = matches!(c.k_opt, V::Invalid(_)) || matches!(c.area_opt, V::Invalid(_)) || matches!(c.red1_opt, Red::Invalid(_)) || matches!(c.red2_opt, Red::Invalid(_));
+    // Several independent faults may be present at once (an invalid option value, no source of factors, an
+    // invalid metadata value that would be used); the statement gives each its exit code but not an order of
+    // precedence among them, so any of the codes of the faults present is accepted.
+    let mut errs: std::collections::BTreeSet<i32> = Default::default();
     if opt_invalid {
-        e.status = vec![65];
-        return e;
+        errs.insert(65);
     }
     // RED1 / RED2: option > metadata (an unparsable metadata value may be refused or ignored)
     let mut may_refuse = false;
@@ -270,12 +273,10 @@ pub fn model(c: &Case) -> Expect {
         (None, V::Valid(l), _) => e.fsrc = ("usuario".into(), l.clone()),
         (None, _, V::Valid(l)) => e.fsrc = ("metadatos".into(), l.clone()),
         (None, _, V::Invalid(_)) => {
-            e.status = vec![65];
-            return e;
+            errs.insert(65);
         }
         (None, _, V::Absent) => {
-            e.status = vec![64];
-            return e;
+            errs.insert(64);
         }
     }
     // area and k_exp
@@ -287,10 +288,10 @@ pub fn model(c: &Case) -> Expect {
                 shadowed_invalid = true;
             }
         }
+        (V::Invalid(_), _) => {}
         (_, V::Valid(m)) => e.area = ("metadatos".into(), parse_f32(m).unwrap()),
         (_, V::Invalid(_)) => {
-            e.status = vec![65];
-            return e;
+            errs.insert(65);
         }
         _ => {}
     }
@@ -301,18 +302,44 @@ pub fn model(c: &Case) -> Expect {
                 shadowed_invalid = true;
             }
         }
+        (V::Invalid(_), _) => {}
         (_, V::Valid(m)) => e.k = ("metadatos".into(), parse_f32(m).unwrap()),
         (_, V::Invalid(_)) => {
-            e.status = vec![65];
-            return e;
+            errs.insert(65);
         }
         _ => {}
+    }
+    if !errs.is_empty() {
+        if shadowed_invalid || may_refuse {
+            errs.insert(65);
+        }
+        e.status = errs.into_iter().collect();
+        return e;
     }
     if shadowed_invalid || may_refuse {
         // both "refuse" and "use the option / ignore the unparsable RED metadata" satisfy the statement
         e.status = vec![0, 65];
     }
     e
+}
+
+/// `Label (origin) [unit]: value`: the origin is the expected one and the printed value is the value used, at
+/// the precision it is printed with (the number of decimals is not part of the statement)
+fn echo_agrees(line: &str, origin: &str, value: f32) -> bool {
+    let (head, val) = match line.rsplit_once(':') {
+        Some(x) => x,
+        None => return false,
+    };
+    let got_origin = head.split_once('(').and_then(|(_, r)| r.split_once(')')).map(|(o, _)| o.trim());
+    if got_origin != Some(origin) {
+        return false;
+    }
+    let t = val.trim();
+    let decimals = t.split_once('.').map(|(_, d)| d.chars().take_while(|c| c.is_ascii_digit()).count()).unwrap_or(0);
+    match t.parse::<f64>() {
+        Ok(g) => (g - value as f64).abs() <= 0.5 * 10f64.powi(-(decimals as i32)) * 1.0001 + 1e-6 * (value.abs() as f64),
+        Err(_) => false,
+    }
 }
 
 fn meta_of(text: &str) -> Vec<(String, String)> {
@@ -439,10 +466,10 @@ fn check_run(c: &Case, text: &str, run: &CliRun, ctx: &mut Ctx) -> CheckResult {
     let line = |prefix: &str| so.lines().find(|l| l.starts_with(prefix)).map(|l| l.to_string());
     let l_area = line("Área de referencia (").ok_or_else(|| Failure::new("echo", "no `Área de referencia` line"))?;
     let expect_area = format!("Área de referencia ({}) [m2]: {:.2}", e.area.0, e.area.1);
-    ensure!(l_area == expect_area, "echo_area", "printed `{}` but the value used should be `{}`", l_area, expect_area);
+    ensure!(echo_agrees(&l_area, &e.area.0, e.area.1), "echo_area", "printed `{}` but the value used should be `{}`", l_area, expect_area);
     let l_k = line("Factor de exportación (").ok_or_else(|| Failure::new("echo", "no `Factor de exportación` line"))?;
     let expect_k = format!("Factor de exportación ({}) [-]: {:.1}", e.k.0, e.k.1);
-    ensure!(l_k == expect_k, "echo_kexp", "printed `{}` but the value used should be `{}`", l_k, expect_k);
+    ensure!(echo_agrees(&l_k, &e.k.0, e.k.1), "echo_kexp", "printed `{}` but the value used should be `{}`", l_k, expect_k);
     let l_f = line("Factores de paso (").ok_or_else(|| Failure::new("echo", "no `Factores de paso` line"))?;
     let expect_f = format!("Factores de paso ({}): {}", e.fsrc.0, e.fsrc.1);
     ensure!(l_f == expect_f, "echo_factors", "printed `{}` but the source used should be `{}`", l_f, expect_f);
@@ -551,9 +578,9 @@ fn check_run(c: &Case, text: &str, run: &CliRun, ctx: &mut Ctx) -> CheckResult {
             ensure!(run2.status == Some(0), "rerun_status", "cteepbd refuses the components it emitted itself: {}", run2.summary());
             let line2 = |prefix: &str| run2.stdout.lines().find(|l| l.starts_with(prefix)).map(|l| l.to_string()).unwrap_or_default();
             let want_a = format!("Área de referencia (metadatos) [m2]: {:.2}", e.area.1);
-            ensure!(line2("Área de referencia (") == want_a, "recorded_area", "run on the emitted components prints `{}`; the first run used `{}`", line2("Área de referencia ("), want_a);
+            ensure!(echo_agrees(&line2("Área de referencia ("), "metadatos", format!("{:.2}", e.area.1).parse().unwrap()), "recorded_area", "run on the emitted components prints `{}`; the first run used `{}`", line2("Área de referencia ("), want_a);
             let want_k = format!("Factor de exportación (metadatos) [-]: {:.1}", e.k.1);
-            ensure!(line2("Factor de exportación (") == want_k, "recorded_kexp", "run on the emitted components prints `{}`; the first run used `{}`", line2("Factor de exportación ("), want_k);
+            ensure!(echo_agrees(&line2("Factor de exportación ("), "metadatos", format!("{:.1}", e.k.1).parse().unwrap()), "recorded_kexp", "run on the emitted components prints `{}`; the first run used `{}`", line2("Factor de exportación ("), want_k);
             if c.ffile.is_none() {
                 let want_f = format!("Factores de paso (metadatos): {}", e.fsrc.1);
                 ensure!(line2("Factores de paso (") == want_f, "recorded_location", "run on the emitted components prints `{}`; the first run used location `{}`", line2("Factores de paso ("), e.fsrc.1);
